@@ -173,7 +173,7 @@ def run(ctx):
             ctx.check(okd, "DELEGATE", "C20:DELEGATE:%s" % w, "the deserializer is handed, once and untouched, to the inner type's Deserialize",
                       "Deserialize for %s does something with the deserializer other than delegating to the inner type (uses: %s)" % (w, [(u[0]["f"].get("name"), u[1]) for u in uses]), config, ctx.where(f))
             # the inner value is only wrapped: every other call is Result::map / the wrapper constructor closure
-            others = [fx.callee(t) for b, t in f.calls() if not (t["f"].get("trait") == "serde::Deserialize")]
+            others = [fx.callee(t) for b, t in f.calls() if not (t["f"].get("trait") == "serde::Deserialize") and fx.callee(t) != "std::string::String::new"]
             for g in fx.family(f):
                 if g is not f:
                     others += [fx.callee(t) for b, t in g.calls() if fx.callee(t) != "std::string::String::new"]
